@@ -140,6 +140,19 @@ pub fn text(c: &Case) -> String {
         body += &format!("T ::= [{class}7] {kw}{} OF {elem}\n", if f[1] == "SEQOF" { "SEQUENCE" } else { "SET" });
         return module("M", &c.default, c.ext_implied, &body);
     }
+    if let Some((kind, mask, _)) = c.auto.as_ref().filter(|a| a.0.starts_with("TEMPLATE-")) {
+        // a tag written inside a parameterized type: every instance carries it under the module's tagging default
+        let kw = ["", "IMPLICIT ", "EXPLICIT "][(*mask % 3) as usize];
+        let class = ["", "APPLICATION ", "PRIVATE "][(*mask / 3) as usize];
+        let tp = match kind.trim_start_matches("TEMPLATE-") {
+            "assign" => format!("Tp {{ Dummy }} ::= [{class}7] {kw}Dummy"),
+            "choice" => format!("Tp {{ Dummy }} ::= CHOICE {{ a [{class}7] {kw}Dummy, b [{class}8] {kw}NULL }}"),
+            "nested" => format!("Tp {{ Dummy }} ::= SEQUENCE {{ n SEQUENCE {{ a [{class}7] {kw}Dummy, b BOOLEAN }} }}"),
+            _ => format!("Tp {{ Dummy }} ::= SEQUENCE {{ a [{class}7] {kw}Dummy, b BOOLEAN }}"),
+        };
+        body += &format!("{tp}\nT ::= Tp {{ INTEGER }}\n");
+        return module("M", &c.default, c.ext_implied, &body);
+    }
     if let Some((kind, _, _)) = c.auto.as_ref().filter(|a| a.0.starts_with("COMPOF-")) {
         // the automatic-tagging decision is taken on the components as written, before COMPONENTS OF is expanded (X.680 25.7)
         let k = kind.trim_start_matches("COMPOF-");
@@ -243,7 +256,7 @@ pub fn reference_encodings(c: &Case) -> Vec<(String, Vec<u8>, bool)> {
         };
         out.push((name, enc, true));
     }
-    if c.auto.as_ref().map_or(false, |a| a.0.starts_with("COMPOF-") || a.0.starts_with("LISTTAG-")) {
+    if c.auto.as_ref().map_or(false, |a| a.0.starts_with("COMPOF-") || a.0.starts_with("LISTTAG-") || a.0.starts_with("TEMPLATE-")) {
         return out;
     }
     if let Some((kind, mask, nested)) = &c.auto {
@@ -463,6 +476,13 @@ impl Prop for C03 {
             }
         }
         for d in defaults {
+            for pos in ["assign", "component", "choice", "nested"] {
+                for mask in 0u8..9 {
+                    out.push(Case { default: d.into(), occ: vec![], auto: Some((format!("TEMPLATE-{pos}"), mask, false)), ext_implied: false });
+                }
+            }
+        }
+        for d in defaults {
             for kind in ["COMPOF-SEQUENCE", "COMPOF-SET"] {
                 out.push(Case { default: d.into(), occ: vec![], auto: Some((kind.into(), 0, false)), ext_implied: false });
             }
@@ -629,6 +649,32 @@ impl Prop for C03 {
                         }
                     }
                 }
+            }
+        } else if let Some((kind, mask, _)) = c.auto.as_ref().filter(|a| a.0.starts_with("TEMPLATE-")) {
+            let kw = ["", "IMPLICIT", "EXPLICIT"][(*mask % 3) as usize];
+            let class = ["context", "application", "private"][(*mask / 3) as usize];
+            let want_explicit = kw == "EXPLICIT" || (kw.is_empty() && c.default == "EXPLICIT");
+            let pos = kind.trim_start_matches("TEMPLATE-");
+            let keyb = format!("tag|template-instance|pos={pos}|default={dflt}|kw={}|class={class}", if kw.is_empty() { "none" } else { kw });
+            // where the instance T carries the tag written in the template
+            let got: Option<String> = match pos {
+                "assign" => m.find("T").and_then(|i| i.attrs()).and_then(|a| a.rasn.get("tag").map(|s| s.to_string())),
+                "choice" => match m.find("T") {
+                    Some(Item::Enum { variants, .. }) => variants.iter().find(|v| v.name == "a").and_then(|v| v.attrs.rasn.get("tag").map(|s| s.to_string())),
+                    _ => None,
+                },
+                "nested" => match m.find("TN") {
+                    Some(Item::Struct { fields, .. }) => fields.iter().find(|f| f.name == "a").and_then(|f| f.attrs.rasn.get("tag").map(|s| s.to_string())),
+                    _ => None,
+                },
+                _ => match m.find("T") {
+                    Some(Item::Struct { fields, .. }) => fields.iter().find(|f| f.name == "a").and_then(|f| f.attrs.rasn.get("tag").map(|s| s.to_string())),
+                    _ => None,
+                },
+            };
+            match got.as_deref().and_then(parse_tag) {
+                Some(t) if t.num == 7 && t.class == class && t.explicit == want_explicit => {}
+                other => discs.push(Disc::new(format!("{keyb}|exp-explicit={want_explicit}|got={}", other.as_ref().map_or("none".to_string(), |t| format!("{}:{}:{}", t.class, t.num, t.explicit))), format!("tag of the template instance: {other:?}\n{src}\n{gen}"))),
             }
         } else if let Some((kind, _, _)) = c.auto.as_ref().filter(|a| a.0.starts_with("COMPOF-")) {
             match m.find("T").and_then(|i| i.attrs()) {
